@@ -19,7 +19,9 @@ CONSTANTS MaxFds,        \* kernel SCM_MAX_FD (253)
           Cap,           \* payload cap of the framed layer (32 KiB)
           DescA, DescB,  \* bytes of gob type descriptors of the two message types
           CarryDesc,     \* design switch: descriptors of an Encode that was not sent are kept for the next packet
-          CloseOnReject  \* design switch: receiver closes descriptors of a message it rejects
+          CloseOnReject, \* design switch: receiver closes descriptors of a message it rejects
+          RejectCtrunc,  \* design switch: a message whose control data was cut (MSG_CTRUNC) is rejected
+          AbsorbDesc     \* design switch: gob descriptors of a packet dropped for MSG_CTRUNC still reach the decoder
 
 Types == {"A", "B"}
 Desc(t) == IF t = "A" THEN DescA ELSE DescB
@@ -81,17 +83,23 @@ Send(m, out) ==
   /\ UNCHANGED <<layer, passcred, dlv, lost, arrived, handed, closed, decKnown>>
 
 \* ------------------------------------------------------------------ receiving
-\* a receive request: [rbuf, want]; want = "M" (a type the message decodes into) | "X" (none does)
-RecvFits(p, r) == IF layer = "raw" THEN p.wire >= 1 /\ p.wire <= r.rbuf ELSE r.want # "X"
+\* a receive request: [rbuf, want, free]; want = "M" (a type the message decodes into) | "X" (none does);
+\* free = number of free slots in the receiver's descriptor table (RLIMIT_NOFILE), -1 = plenty.
+\* The kernel installs the first `free` descriptors of a message and flags the rest as cut (MSG_CTRUNC).
+Room(p, r) == r.free < 0 \/ p.m.nfds <= r.free
+Installed(p, r) == IF Room(p, r) THEN p.m.nfds ELSE r.free
+RecvFits(p, r) == /\ Room(p, r)
+                  /\ IF layer = "raw" THEN p.wire >= 1 /\ p.wire <= r.rbuf ELSE r.want # "X"
 RecvOK(p, r, out) == out = IF RecvFits(p, r) THEN "ok" ELSE "rej"
 Decodable(p) == p.m.typ \in decKnown \cup p.descs
 RecvImpl(p, r) ==
-  IF layer = "raw" THEN (IF p.wire = 0 \/ p.wire > r.rbuf THEN "rej" ELSE "ok")  \* EOF | MSG_TRUNC
+  IF RejectCtrunc /\ ~Room(p, r) THEN "rej"                                       \* MSG_CTRUNC
+  ELSE IF layer = "raw" THEN (IF p.wire = 0 \/ p.wire > r.rbuf THEN "rej" ELSE "ok")  \* EOF | MSG_TRUNC
   ELSE IF ~Decodable(p) \/ r.want = "X" THEN "rej" ELSE "ok"
 
 Recv(r, out) ==
   /\ q # <<>>
-  /\ LET p == Head(q) n == p.m.nfds IN
+  /\ LET p == Head(q) n == Installed(p, r) IN
        /\ RecvOK(p, r, out)
        /\ q' = Tail(q)
        /\ arrived' = arrived + n
@@ -99,7 +107,8 @@ Recv(r, out) ==
             THEN dlv' = Append(dlv, p.m.id) /\ handed' = handed + n /\ UNCHANGED <<lost, closed>>
             ELSE lost' = lost \cup {p.m.id} /\ closed' = closed + (IF CloseOnReject THEN n ELSE 0)
                  /\ UNCHANGED <<dlv, handed>>
-       /\ decKnown' = decKnown \cup p.descs
+       \* the decoder sees the packet's bytes unless the socket layer dropped the packet
+       /\ decKnown' = IF Room(p, r) \/ AbsorbDesc THEN decKnown \cup p.descs ELSE decKnown
   /\ UNCHANGED <<layer, passcred, acc, encKnown, pend>>
 
 \* what the receiving caller must see when packet p is delivered
